@@ -1101,7 +1101,7 @@ namespace BitSerializer::MsgPack::Detail
 				mBinaryStreamReader.GotoNextByte();
 				return true;
 			}
-			HandleMismatchedTypesPolicy(mBinaryStreamReader, ByteCodeTable[static_cast<uint8_t>(*byteCode)].Type, mSerializationOptions.mismatchedTypesPolicy);
+			HandleMismatchedTypesPolicy(mBinaryStreamReader, ReadValueType(), mSerializationOptions.mismatchedTypesPolicy);
 			return false;
 		}
 		throw ParsingException("No more values to read", 0, mBinaryStreamReader.GetPosition());
